@@ -306,7 +306,20 @@ fn lib_match(tmpl_text: &str, script_bytes: &[u8], acc: &mut Acc) -> (LibRes, Op
     };
     acc.transitions += 2;
     let r = match guard(|| s.matches(&t)) {
-        Ok(Ok(v)) => LibRes::Match(v.into_iter().map(|(k, d)| (format!("{:?}", k), d)).collect()),
+        Ok(Ok(v)) => LibRes::Match(
+            v.into_iter()
+                .map(|(k, d)| {
+                    // name the kind by matching on the variant (a renamed variant is then a build error, not a verdict)
+                    let kind = match k {
+                        bsv::MatchDataTypes::Data => "Data",
+                        bsv::MatchDataTypes::Signature => "Signature",
+                        bsv::MatchDataTypes::PublicKey => "PublicKey",
+                        bsv::MatchDataTypes::PublicKeyHash => "PublicKeyHash",
+                    };
+                    (kind.to_string(), d)
+                })
+                .collect(),
+        ),
         Ok(Err(e)) => {
             let m = e.to_string();
             LibRes::NoMatch(if m.len() > 120 { format!("{}…", &m[..m.char_indices().take(120).last().map(|x| x.0).unwrap_or(0)]) } else { m })
